@@ -34,10 +34,12 @@ def closeTL (a b : TL) : Bool := a.length == b.length && (List.zip a b).all fun 
 def matchHint (h : Hint) (t : PTerm) (H : TL) (refine : Bool) : Bool :=
   h.refine == refine && closeTerm h.t t && closeTL h.H H
 
-/-- hint lookup by exact content; a hint is used only if the driver verifies it is admissible -/
-def hintFn (hs : List Hint) (_xs : List Var) (t : PTerm) (H : TL) (refine : Bool) : Option (List Nat) :=
-  match hs.find? (fun h => matchHint h t H refine) with
-  | some h => if Elim.hintAdmissible theOracle t H h.xs refine h.idx then some h.idx else none
+/-- hint lookup by exact content, INCLUDING the variables to eliminate the implementation's call had (the same term and
+    context are met with different variable lists inside one history); a hint is used only if the driver verifies it is
+    admissible.  `_dflt` is unused (kept for the call sites that know the list up front). -/
+def hintFn (hs : List Hint) (_dflt : List Var) (t : PTerm) (H : TL) (xs : List Var) (refine : Bool) : Option (List Nat) :=
+  match hs.find? (fun h => matchHint h t H refine && h.xs == xs) with
+  | some h => if Elim.hintAdmissible theOracle t H xs refine h.idx then some h.idx else none
   | none => none
 
 def jTacticRes (r : Elim.TacticRes) : Json :=
@@ -60,7 +62,7 @@ def handleElim (op : String) (j : Json) : Option (Except String Json) :=
     let hs ← getHints j
     let r := Elim.tactic theOracle true (hintFn hs xs) k t H xs refine
     let r2 := Elim.tactic theOracle false (hintFn hs xs) k t H xs refine
-    let used := match hs.find? (fun h => matchHint h t H refine) with
+    let used := match hs.find? (fun h => matchHint h t H refine && h.xs == xs) with
       | some h => Elim.hintAdmissible theOracle t H xs refine h.idx
       | none => true
     pure (((jTacticRes r).setObjVal! "hint_ok" (Json.bool used)).setObjVal! "alt" (jTacticRes r2))
